@@ -57,6 +57,14 @@ fn board(fen: &str) -> Board {
 /// Nodes of the uninterrupted search, or None if it exceeds `cap` nodes.
 fn total_nodes(b: &Board, d: u8, cap: u64) -> Option<u64> {
     crate::timer::verif::set_node_clock(Some(1));
+    // this search too may never return on a broken tree: it is a crash point like the others
+    // (deadline at node `cap`), so a hang here becomes the same verdict through the watchdog
+    let fen = eng::fen_of(b);
+    let _job = crate::watch::enter(
+        format!("C07 fen={} depth={} no-answer", fen, d),
+        format!("{:?} depth {}: search with a budget of {} nodes did not answer after {} s of wall time (the search does not stop)", fen, d, cap, crate::watch::LIMIT_S),
+        vec!["c07-one".to_string(), "--fen".into(), fen.clone(), "--depth".into(), d.to_string(), "--at".into(), cap.to_string()],
+    );
     let r = guard(|| {
         let mut s = Searcher::new();
         s.find_best_move(b, d, Some(Duration::from_millis(cap)));
